@@ -161,6 +161,24 @@ Definition spec_check (c : case) : option bool :=
            else true)) (seq 0 n)) (seq 0 n))
   end.
 
+(* status of a pair for relational checks (C08): 0 = estimator clearly defined, 1 = borderline,
+   2 = undefined, 3 = no opinion (characters without a code) *)
+Definition pair_status (c : case) (i j : nat) : Z :=
+  let rs := unrows (k_in c) in
+  match codes_of rs with
+  | None => 3%Z
+  | Some codes =>
+      let sel := selected_sites rs (k_rmgaps c) in
+      let pi := proba_nt codes sel (k_weights c) in
+      let s1 := nth i codes [] in let s2 := nth j codes [] in
+      let pq := pair_counts c sel s1 s2 in
+      if Z.leb (k_model c) 1 then
+        let '(d, t) := raw_or_p c sel s1 s2 in
+        if Z.eqb (k_model c) 1 && Qeq_bool t 0 then 2%Z else 0%Z
+      else if estimator_borderline c pi pq then 1%Z
+      else if estimator_clear c pi pq then 0%Z else 2%Z
+  end.
+
 Definition spec_ok (c : case) : bool := ok_of (spec_check c).
 Definition failing := failing_gen model_ok spec_ok.
 Definition count_judged := count_judged_gen spec_check.
